@@ -1,21 +1,52 @@
 #!/usr/bin/env python3
-# prints the markdown table of DESIGN.md 12.2 from seeded/r3-*/meta.json
+# prints the markdown table of DESIGN.md 12.2 from seeded/r3-*/meta.json plus
+# the notes below (which round-2 check reported a change, or which dimension
+# was widened for it)
 import json, glob, os
-rows = []
+BEFORE = {  # reported by the machinery as committed at the end of round 2
+ 'C02-A': 'C02', 'C04-B': 'C04', 'C06-B': 'C06', 'C11-B': 'C11', 'C12-A': 'C12', 'C12-B': 'C12', 'C14-A': 'C14', 'C16-A': 'C16',
+ 'C01-A': 'C12', 'C01-B': 'C12', 'C04-A': 'C01', 'C05-A': 'C06, C14', 'C09-A': 'C04', 'C10-A': 'C12', 'C11-A': 'C14, C06', 'C13-B': 'C14, C06', 'C18-B': 'C12',
+}
+WIDENED = {
+ 'C01-A': 'owner: packets built a second time with String/Dump/WriteTo after every setter',
+ 'C01-B': 'owner still silent: a second SetWill is a setter history (C12)',
+ 'C02-B': 'none: the will is modified after it was attached, outside the property\'s domain; C12 now changes topic/properties through Will() (frame stays valid) but not what this change needs',
+ 'C03-A': 'filter contents with (or resembling) a meaning to brokers',
+ 'C03-B': 'cache-pressure histories in C14 (the owner judges single frames)',
+ 'C04-A': 'owner: family F8 (filter contents x all option bytes)',
+ 'C05-A': 'owner: every corpus frame kept while the others are decoded after it',
+ 'C05-B': 'none needed: the first evaluation ran on a loaded machine and hit the internal deadline before the long-list stage; that stage now runs first',
+ 'C06-A': 'C13: two streams read concurrently after a failed read, scheduling points inside the caller\'s Read (the owner has no concurrency)',
+ 'C07-A': 'periodic schedules with hundreds of idle reads in total',
+ 'C07-B': 'reader kinds under the fragmenting source; non-minimal length fields in the corpus',
+ 'C08-A': 'reader kinds (bytes.Buffer holding the prefix)',
+ 'C08-B': 'error shapes (E wrapping io.EOF)',
+ 'C09-A': 'bases whose user properties hold non-UTF-8 bytes before each property',
+ 'C09-B': 'mutants read as second frame of a burst through bufio',
+ 'C10-A': 'rewrite path from decoded packets',
+ 'C10-B': 'error shapes (Temporary()) and a writer that recovers',
+ 'C11-A': 'none for the owner: another decode between two writes is C14\'s history',
+ 'C13-A': 'slow-writer scenarios after a failed write; schedules explored although the library synchronises',
+ 'C13-B': 'owner: decoded shared packet vs reads of frames with foreign properties',
+ 'C14-B': 'forward operation (fields handed from packet to packet), payload sizes 1/5/7',
+ 'C15-A': 'codec at its public use sites (PUBLISH identifiers below 2^24)',
+ 'C15-B': 'streaming decoder behind buffering readers whose buffer ends inside the integer',
+ 'C16-B': 'reader kinds (own type with an unrelated Len())',
+ 'C17-A': 'histories with edits through Filters()',
+ 'C17-B': 'filter contents',
+ 'C18-A': 'ill-formed UTF-8 contents',
+ 'C18-B': 'setter histories run twice',
+ 'C19-A': 'dense length sweep of every field from a base with a failing reason code',
+ 'C19-B': 'filter contents x option bytes among the decoded inputs',
+}
+print('| id | change | reported by the round-2 machinery? | else: what was widened | owning check now |')
+print('|---|---|---|---|---|')
 for d in sorted(glob.glob('/verif/seeded/r3-*')):
     m = json.load(open(d + '/meta.json'))
-    name = os.path.basename(d)
+    key = os.path.basename(d)[3:]
     hist = m['evaluation_history']
-    def caught(h):
-        return [r['check'] for r in h.get('results', []) if r['exit'] == 1]
-    before = caught(hist[0])
-    neigh = caught(hist[1]) if len(hist) > 1 else []
-    after = caught(hist[2]) if len(hist) > 2 else []
-    extra = m.get('reported_by_after', [])
+    after = [r['check'] for r in hist[2].get('results', []) if r['exit'] == 1]
     title = (m.get('title') or '').replace('|', '/')
-    if len(title) > 110: title = title[:107] + '...'
-    widened = m.get('widened', '')
-    rows.append(f"| {name} | {title} | {'yes' if before else ('by ' + ', '.join(m.get('before_neighbours', [])) if m.get('before_neighbours') else 'no')}{(' - ' + widened) if widened and not before else ''} | {', '.join(sorted(set(after + extra))) or 'not reported'} |")
-print('| id | change | reported by the round-2 machinery? (else: what was widened) | reported now by |')
-print('|---|---|---|---|')
-print('\n'.join(rows))
+    if len(title) > 105: title = title[:102] + '...'
+    b = BEFORE.get(key, '')
+    print(f"| r3-{key} | {title} | {('yes: ' + b) if b else 'no'} | {WIDENED.get(key, '')} | {'reports it' if after else 'silent'} |")
